@@ -180,7 +180,7 @@ static struct ev_decl synth_list[] = {
 	{ "XAa(u8 a, i8 b, u16 c, i16 d, u32 e, i32 f)", "a=%{a} b=%{b} c=%{c} d=%{d} e=%{e} f=%{f}" },
 	{ "XAb(u64 g, i64 h)", "g=%{g} h=%{h} 100%%" },
 	{ "XAc+(u32 id, u16 k, str s)", "id=%{id} k=%{k} s='%{s}'" },
-	{ "XAd(u16 x)", "only %5u{x} and %#x{x}" },
+	{ "XAd(u16 x)", "only %5u{x} and %#x{x}." },
 	{ NULL, NULL },
 };
 #define EVLIST synth_list
